@@ -52,7 +52,7 @@ def shard(ctx, spec):
     elif kind == "faults":
         for sc in spec["scenarios"]:
             r0 = O.run_scenario(sc)
-            ok0 = any(c[1] == "ack" for c in r0["conf"])
+            ok0 = any(c[1] in ("ack", "simple") for c in r0["conf"])
             judge(ctx, sc, r0, True)
             for i in range(len(r0["frames"])):
                 for act in ACTIONS:
@@ -102,7 +102,8 @@ def judge(ctx, sc, res, baseline_ok, label=None):
         ctx.fail(k, {"scenario": sc, "observed": O.brief(res)}, w,
                  n_faults=len(sc.get("faults", {})),
                  segments=max(sc.get("clen", 0), sc.get("slen", 0)) // max(1, sc["a"]["max_apdu"] - 6))
-    if baseline_ok is True and not sc.get("faults") and not any(c[1] == "ack" for c in res["conf"]):
+    if baseline_ok is True and not sc.get("faults") and sc.get("mode", "ack") in ("ack", "simple") \
+            and not any(c[1] in ("ack", "simple") for c in res["conf"]):
         # fault-free transfers within the negotiated limits must succeed
         segs = max(sc.get("clen", 0), sc.get("slen", 0)) // max(1, sc["a"]["max_apdu"] - 6) + 1
         if segs <= 64 or label:
@@ -131,6 +132,12 @@ def run_impl(ctx):
         for wb in ([1, 2] if ctx.quick else range(1, 9)):
             fs.append({"clen": 5 if (wa + wb) % 2 else 240, "slen": 240, "a": stack(50, window=wa),
                        "b": stack(50, window=wb), "know": False})
+            # segmented request of more than window+2 segments answered by ONE short frame: losing that
+            # answer makes the client repeat the whole request from segment 0
+            if wb == 1 or (wa + wb) % 3 == 0:
+                fs.append({"clen": 300, "slen": 5, "a": stack(50, window=wa), "b": stack(50, window=wb), "know": False})
+                fs.append({"clen": 300, "slen": 0, "mode": "simple", "a": stack(50, window=wa),
+                           "b": stack(50, window=wb), "know": False})
     n = 12
     for i in range(n):
         specs.append({"kind": "faults", "label": "faults-%d" % i, "scenarios": fs[i::n]})
